@@ -825,6 +825,8 @@ def plan_GROWTH(tier, seed):
           Shard("magnitude", drv_growth.gen_magnitude, dict(seed=seed, n=1500 * k), *T),
           Shard("moonk", drv_growth.gen_moonk, dict(seed=seed, n=300 * k), *T),
           Shard("jsat", drv_growth.gen_jsat, dict(seed=seed, n=400 * k), *T),
+          Shard("jphen", drv_growth.gen_jphen, dict(seed=seed, n=150 * k), *T),
+          Shard("misc", drv_growth.gen_misc, dict(seed=seed, n=300 * k), *T),
           Shard("physical", drv_growth.gen_physical, dict(seed=seed, n=400 * k), *T),
           Shard("statics", drv_growth.gen_statics, dict(seed=seed, n=1500 * k), *T),
           Shard("elements", drv_growth.gen_elements, dict(seed=seed, n=600 * k), *T),
